@@ -22,6 +22,8 @@ OL_NONLOCAL_DICT: _ol_reserved_name = "__ol_nonlocal_{}"
 OL_CLASS_DICT: _ol_reserved_name = "__ol_classnsp_{}"
 OL_WHILE_TMP: _ol_reserved_name = "__ol_while_{}"
 OL_CLASS_LOADER: _ol_reserved_name = "__ol_loader_{}"
+OL_CLASS_BASES: _ol_reserved_name = "__ol_bases_{}"
+OL_CLASS_KEYWORDS: _ol_reserved_name = "__ol_kwds_{}"
 OL_CLASS_DECORATOR: _ol_reserved_name = "__ol_classdec_{}"
 OL_IMPORT_TMP: _ol_reserved_name = "__ol_mod_{}"
 
